@@ -482,7 +482,7 @@ func runC03(c *Ctx) {
 			}
 		}
 		var filterFn *ssa.Function
-		label := ""
+		label, varLabel := "", ""
 		for _, fn := range w.FuncsOfPkg(pkgPath) {
 			for _, b := range fn.Blocks {
 				for _, ins := range b.Instrs {
@@ -503,12 +503,24 @@ func runC03(c *Ctx) {
 							filterFn = ff
 						}
 					case "CertLabel":
-						label = sprintfConst(w, s.Val)
+						// every value the label can take: one that is not a constant (a configured label) is one the
+						// refresh filter is not known to match
+						if l := sprintfConst(w, s.Val); l == "" || (label != "" && !strings.Contains(l, name)) {
+							varLabel = w.Pos(s.Pos())
+							if l != "" {
+								label = l
+							}
+						} else {
+							label = l
+						}
 					}
 				}
 			}
 		}
 		hn := h.Obj().Pkg().Name() + "." + h.Obj().Name()
+		if varLabel != "" {
+			c.Bad("R3.refresh", hn+"|certificate label contains the handler name", varLabel, "the label put on provisioned certificates can be a value that is not a constant containing the handler name (a configured label): the refresh filter, which looks for the handler name, will not find and replace such certificates")
+		}
 		var filterEnv map[*ssa.FreeVar]ssa.Value
 		if filterFn == nil {
 			// the options are built by option methods / a constructor: read the two fields off the value handed to
